@@ -154,6 +154,7 @@ class TimeRange(object):
                 self.start += float(self.p1_t0)
             if self.end is not None:
                 self.end += float(self.p1_t0)
+            self.absolute = True
 
         return self
 
